@@ -65,6 +65,10 @@ def catalogue():
     c["dict-typed-cd"] = ({"k": "Dict", "key": {"k": "Str", "o": {"transform_strip": True}}, "val": {"k": "Int", "o": {"min": 0, "max": 9}},
                            "o": {"default": D(("d", 1)), "default_callable": True}}, [D(("k", 1)), D((" K ", "2"))], [D(("k", "x")), [1]])
     c["int-cd"] = ({"k": "Int", "o": {"default": 3, "default_callable": True}}, [1, "2"], ["x"])
+    # declared defaults that are valid but not in their field's normal form
+    c["loglevel-rawdflt"] = ({"k": "LogLevel", "o": {"default": "INFO"}}, ["debug", " WARNING "], ["trace"])
+    c["int-rawdflt"] = ({"k": "Int", "o": {"default": "8080", "min": 0}}, [1, "2"], [-1, "x"])
+    c["str-rawdflt"] = ({"k": "Str", "o": {"default": "  padded  ", "transform_strip": True, "transform_case": "upper"}}, ["AB", " cd "], [5])
     c["int-cd-partial"] = ({"k": "Int", "o": {"default": 3, "default_callable": "partial"}}, [1, "2"], ["x"])
     c["list-int-cd-object"] = ({"k": "List", "item": {"k": "Int", "o": {"min": 0, "max": 9}}, "o": {"default": [1, 2], "default_callable": "object"}},
                                [[2], [1, "2"]], [[1, "x"], 5])
@@ -644,6 +648,9 @@ def apply_op(w, op):
         path, v = op[1], w.dec(op[2])
         owner = chained(cfg, path.rsplit(".", 1)[0]) if "." in path else cfg
         setattr(owner, path.rsplit(".", 1)[-1], v)
+        return None
+    if name == "validate":       # an explicit whole-configuration validation pass
+        cfg.validate()
         return None
     if name == "render":         # serialisation: must be free of side effects
         cfg.to_tree()
